@@ -82,6 +82,71 @@ theorem cancel_too_late (s result : σ) (succAt : Nat) (stale : Bool) (k : Nat) 
   intro j hj
   simp [flagSet]; omega
 
+/-! ### whole histories of failed commands, and the complete cancel schedule table -/
+
+/-- **any number of failed commands in a row leave no trace**: a history of commands none of which made a real
+    persistent write (each may have advanced the clock) never rewrites storage, never counts a store, and leaves
+    the image unchanged outside the ORDERLY_DATA block — whatever the storage callback would have answered -/
+theorem failed_history_no_trace (mask : ι → κ) (hist : List (List (Write ι) × Bool)) (s : St ι)
+    (hs : C03.Synced mask s)
+    (hall : ∀ c ∈ hist, (∀ w ∈ c.1, C03.ClockOnly mask w) ∧ hasNvWrite c.1 = false) :
+    (hist.foldl (fun s (c : List (Write ι) × Bool) => command s c.1 c.2) s).disk = s.disk ∧
+    (hist.foldl (fun s (c : List (Write ι) × Bool) => command s c.1 c.2) s).stores = s.stores ∧
+    mask (hist.foldl (fun s (c : List (Write ι) × Bool) => command s c.1 c.2) s).nv = mask s.nv := by
+  induction hist generalizing s with
+  | nil => exact ⟨rfl, rfl, rfl⟩
+  | cons c rest ih =>
+    obtain ⟨hc, hn⟩ := hall c (by simp)
+    have h1 := C03.clock_only_lags mask s c.1 c.2 hs hc hn
+    have h2 := (clock_only_no_trace mask s c.1 c.2 hs hc hn).2
+    obtain ⟨i1, i2, i3⟩ := ih (command s c.1 c.2) h1.2.2 (fun c' hc' => hall c' (by simp [hc']))
+    simp only [List.foldl]
+    exact ⟨by rw [i1, h1.1], by rw [i2, h1.2.1], by rw [i3, h2]⟩
+
+/-- a command that made no write at all is the identity on the whole model state outside failure mode's flag
+    handling: image, storage, store count AND failure flag -/
+theorem no_write_identity (s : St ι) (ok : Bool) (hu : s.updateNV = false) : command s [] ok = s := by
+  unfold command body
+  by_cases hf : s.failure
+  · simp [hf]
+  · cases s; simp_all
+
+/-- **the cancel schedule table, complete**: a request that lands before or at the poll of the successful attempt
+    cancels the command with the state it started from ... -/
+theorem cancel_in_time (s result : σ) (succAt : Nat) (stale : Bool) (k : Nat) (hk : k ≤ succAt) :
+    run s result succAt stale (some k) = .canceled s := by
+  unfold run
+  suffices h : ∀ fuel i, i ≤ k → k < i + fuel → loop s result succAt (some k) i fuel = .canceled s from
+    h (succAt + 1) 0 (Nat.zero_le _) (by omega)
+  intro fuel
+  induction fuel with
+  | zero => intro i _ _; rfl
+  | succ n ih =>
+    intro i hik hkn
+    unfold loop
+    by_cases he : k ≤ i
+    · simp [flagSet, he]
+    · have hne : i ≠ succAt := by omega
+      simp only [flagSet, he, decide_false, Bool.false_eq_true, if_false, hne]
+      exact ih (i + 1) (by omega) (by omega)
+
+/-- ... so the outcome is decided by the landing point alone: cancelled iff the request landed no later than the
+    successful attempt's poll (`cancel_too_late` is the other half) -/
+theorem cancel_iff (s result : σ) (succAt : Nat) (stale : Bool) (k : Nat) :
+    run s result succAt stale (some k) = .canceled s ↔ k ≤ succAt := by
+  by_cases hk : k ≤ succAt
+  · exact ⟨fun _ => hk, fun _ => cancel_in_time s result succAt stale k hk⟩
+  · refine ⟨fun h => ?_, fun h => absurd h hk⟩
+    rw [cancel_too_late s result succAt stale k (by omega)] at h
+    cases h
+
+/-- the stale flag plays no part in any schedule -/
+theorem stale_irrelevant (s result : σ) (succAt : Nat) (lands : Option Nat) :
+    run s result succAt true lands = run s result succAt false lands := rfl
+
+example : run (0 : Nat) 1 3 false (some 3) = .canceled 0 := by simp [run, loop, flagSet]
+example : run (0 : Nat) 1 3 true (some 4) = .done 1 := by simp [run, loop, flagSet]
+
 /-! ### The permitted effects of a failed authorization (from the DA model) -/
 open TpmVerif.Model.DA in
 /-- a failed authorization of a DA-protected entity changes only DA accounting (failedTries, its timer) and requests a commit -/
